@@ -52,8 +52,12 @@ func fnClientUnblock(ctx *cmdContext, args map[string]any) (output respValue, er
 		if isError {
 			reason = "UNBLOCKED client unblocked via CLIENT UNBLOCK"
 		}
-		client.unblock(reason, isError)
-		output.data = respInt(1)
+		// reports 1 only when the client really was blocked
+		if client.unblock(reason, isError) {
+			output.data = respInt(1)
+		} else {
+			output.data = respInt(0)
+		}
 	} else {
 		output.data = respInt(0)
 	}
